@@ -49,7 +49,7 @@ CHECKS = {
         module="checks.c15",
         engine="sim_quant",
         text="Generated programs are transformed with simulate_format/simulate_fp8 and driven through short histories (repeated calls, Dynamo resets, failing calls, neighbouring transformed modules) in a fresh simulated process per run; the random source is a logged order-independent PRF so the value set, rounding mode and random-bit count of the inserted quantisers are observed at the seam; outputs and all gradients are compared bitwise with a hand-quantised reference interpreter. Exploration level.",
-        note="TorchDynamo/AOT run as real opaque components; the reference interpreter uses the library's FPFormat.quantise as the quantiser (its value set is C13/C14's business) but its own straight-through wrappers.",
+        note="TorchDynamo/AOT run as real opaque components; the reference interpreter uses the library's FPFormat.quantise as the quantiser (its value set is C13/C14's business) but its own straight-through wrappers, operand selection and gradient placement; recorded findings D7 (torch.nn root module) and D9 (lossless gradients equal to rounding only) are probed deterministically and printed as KNOWN-FINDING.",
         technique="deterministic simulation: fork-per-run worlds, PRF random seam with request log, seeded call/reset/fault histories, differential reference interpreter",
         ref="DESIGN.md §3 C15",
     ),
@@ -57,7 +57,7 @@ CHECKS = {
         module="checks.c16",
         engine="sim_unitscale",
         text="1-3 generated programs share one simulated process; unit_scale / call / failing call / reset operations on them are interleaved by a seeded scheduler (the rewrite depends on process-global Dynamo state), and every successful call is compared bitwise on outputs and all gradients with a User-Guide recipe interpreter of the same program. Exploration level.",
-        note="TorchDynamo runs as a real opaque component; the recipe interpreter uses the library's U.* functions as building blocks (their scale factors are C01-C05's business).",
+        note="TorchDynamo runs as a real opaque component; the recipe interpreter uses the library's U.* functions as building blocks (their scale factors are C01-C05's business); generated programs keep the recipe unambiguous (see DESIGN.md §3 C16); recorded findings D4 (replace key leaks process-wide) and D10 (nn.Softmax) are probed deterministically.",
         technique="deterministic simulation: seeded interleaving of transform/call/fault operations over modules sharing process-global state, reference recipe interpreter",
         ref="DESIGN.md §3 C16",
     ),
@@ -65,7 +65,7 @@ CHECKS = {
         module="checks.c17",
         engine="sim_transforms",
         text="A fresh simulated process per run holds a base module and a growing set of derived modules; seeded histories of derive (any chain order) / call / call-original / sync / drop with injected failing calls, Dynamo resets and first-call interruptions are checked after every operation for: original untouched, no shared storage, repeatability, order independence, agreement with hand-written twins, and recovery after faults. Exploration level.",
-        note="TorchDynamo/AOT/Inductor run as real opaque components whose internal scheduling is not controlled; the simulator controls the operations issued to them, their knobs and resets.",
+        note="TorchDynamo/AOT/Inductor run as real opaque components whose internal scheduling is not controlled; the simulator controls the operations issued to them, their knobs and resets; exceptions are injected only where a synchronous exception can occur (not at inert lines, not inside finally/except bodies, not at the re-visit of a with header); recorded finding D16 (recompile-limit fallback with more than 8 live modules) is probed deterministically.",
         technique="deterministic simulation: fork-per-run worlds, seeded transform/call histories with exception injection at first-call sites (sys.settrace), Dynamo reset and failing-call faults, reference twins, shrinking + replay",
         ref="DESIGN.md §3 C17",
     ),
@@ -73,7 +73,7 @@ CHECKS = {
         module="checks.c18",
         engine="sim_track",
         text="Run histories (forward-only / backward from subsets of outputs, repeated, with resets) of one tracked module are simulated and after every run outputs/gradients are compared bitwise with the untracked module and the recorded metrics with statistics recomputed from independently captured tensors; stale backward metrics across runs are the history-dependent part. Exploration level.",
-        note="Placeholder values are captured by an observation wrapper installed in torch.fx.Interpreter by the harness; float32 reductions compared at 1e-5 relative.",
+        note="Values and gradients are observed in the run under test through a wrapper around the tracking backend object found in tracked.backends (instance-level run_node + tensor hooks; installed by the harness, not in /repo); analyse_module is compared with an independent second interpreter; float32 reductions compared at 1e-5 relative, printed 3-digit numbers at 6e-3; rounding-level differences between tracked and untracked results are the recorded finding D13.",
         technique="deterministic simulation: seeded run histories over mutable metrics state, independent capture oracle",
         ref="DESIGN.md §3 C18",
     ),
@@ -81,7 +81,7 @@ CHECKS = {
         module="checks.c20",
         engine="sim_compile",
         text="A compiled callable is a guarded cache with history-dependent behaviour; per run one scaled function/module/composition is compiled under randomised knobs and driven through a seeded call history (shape, dtype, grad-mode changes, resets, failing calls, recompile-limit exhaustion) and every successful call is compared with eager execution on cloned inputs. Exploration level.",
-        note="Dynamo/AOT/Inductor are real opaque components; tolerances are dtype rounding relative to max|.|; dropout only with p=0/eval.",
+        note="Dynamo/AOT/Inductor are real opaque components; tolerances are dtype rounding relative to max|.| (float32-level for float64 callables containing rms_norm, which computes in float32); dropout only with p=0/eval; recorded findings D12 (dynamic=True), D14 (float guard on the symbolic scale) and D15 (Inductor, aliased outputs) are probed by fixed plans, one of which compiles with Inductor in the quick tier.",
         technique="deterministic simulation: seeded call histories + knob randomisation (buggify) + cache-loss faults over torch.compile, eager reference",
         ref="DESIGN.md §3 C20",
     ),
